@@ -1,32 +1,29 @@
 //! C13: dump the four code tables of the implementation (exhaustive).
-use rsdriver::*;
+//!
+//! The tables are functions of their argument alone.  First pass: every call of every table,
+//! ascending, as before; before every 7th call an unrelated call is made (the bit-reversed
+//! argument; a frame with another AC/ID code) and before every 3rd frame decode a truncated
+//! prefix of the frame is decoded (results ignored).  Second pass: the same calls in
+//! descending order without interleaving; every event records `again_same` = the two
+//! results of the code are equal (a comparison of two outputs, not an oracle).
 use rs1090::decode::{decode_id13, gray2alt, Message, DF};
 use rs1090::prelude::*;
-use serde_json::json;
+use rsdriver::*;
+use serde_json::{json, Value};
 use std::panic::catch_unwind;
 
-fn main() {
-    quiet_panics();
-    let args: Vec<String> = std::env::args().skip(1).collect();
-    let mut tr = Trace::create(&args[0]);
-    // identity permutation, all 2^13 arguments
-    for x in 0u32..8192 {
-        match catch_unwind(|| decode_id13(x as u16)) {
-            Ok(y) => tr.emit(json!({"e": "id13", "x": x, "out": "ok", "y": y})),
-            Err(_) => tr.emit(json!({"e": "id13", "x": x, "out": "panic", "y": 0})),
-        }
-    }
-    // Gillham converter, all 2^16 arguments
-    for g in 0u32..65536 {
-        match catch_unwind(|| gray2alt(g as u16)) {
-            Ok(Ok(n)) => tr.emit(json!({"e": "gray", "x": g, "out": "ok", "y": n})),
-            Ok(Err(_)) => tr.emit(json!({"e": "gray", "x": g, "out": "err", "y": 0})),
-            Err(_) => tr.emit(json!({"e": "gray", "x": g, "out": "panic", "y": 0})),
-        }
-    }
-    // 13-bit AC field through DF4 and DF20 frames; squawk through DF5
-    for x in 0u64..8192 {
-        for (df, name) in [(4u64, "ac13"), (20u64, "ac13_df20"), (0u64, "ac13_df0")] {
+#[derive(Clone, Copy)]
+enum Call {
+    Id13(u32),
+    Gray(u32),
+    Ac13(u64, u64, &'static str),
+    Squawk(u64),
+    Ac12(u64, u64, &'static str),
+}
+
+fn frame_of(c: &Call) -> Option<Vec<u8>> {
+    match *c {
+        Call::Ac13(x, df, _) => {
             let addr = 0x400000 + x as u32;
             let payload = if df == 20 {
                 pack(&[(5, df), (3, 0), (5, 0), (6, 0), (13, x), (56, 0)])
@@ -35,9 +32,38 @@ fn main() {
             } else {
                 pack(&[(5, df), (3, 0), (5, 0), (6, 0), (13, x)])
             };
-            let frame = seal(&payload, addr);
-            let r = catch_unwind(|| Message::try_from(frame.as_slice()));
-            match r {
+            Some(seal(&payload, addr))
+        }
+        Call::Squawk(x) => {
+            let payload = pack(&[(5, 5), (3, 0), (5, 0), (6, 0), (13, x)]);
+            Some(seal(&payload, 0x400001))
+        }
+        Call::Ac12(x, tc, _) => {
+            let payload = pack(&[
+                (5, 17), (3, 5), (24, 0x400002), (5, tc), (2, 0), (1, 0), (12, x), (1, 0), (1, 0),
+                (17, 1000), (17, 2000),
+            ]);
+            Some(seal(&payload, 0))
+        }
+        _ => None,
+    }
+}
+
+/// One call of the code under test, recorded (without `again_same`).
+fn exec(c: &Call) -> Value {
+    match *c {
+        Call::Id13(x) => match catch_unwind(|| decode_id13(x as u16)) {
+            Ok(y) => json!({"e": "id13", "x": x, "out": "ok", "y": y}),
+            Err(_) => json!({"e": "id13", "x": x, "out": "panic", "y": 0}),
+        },
+        Call::Gray(g) => match catch_unwind(|| gray2alt(g as u16)) {
+            Ok(Ok(n)) => json!({"e": "gray", "x": g, "out": "ok", "y": n}),
+            Ok(Err(_)) => json!({"e": "gray", "x": g, "out": "err", "y": 0}),
+            Err(_) => json!({"e": "gray", "x": g, "out": "panic", "y": 0}),
+        },
+        Call::Ac13(x, _, name) => {
+            let frame = frame_of(c).unwrap();
+            match catch_unwind(|| Message::try_from(frame.as_slice())) {
                 Ok(Ok(m)) => {
                     let alt = match &m.df {
                         DF::SurveillanceAltitudeReply { ac, .. } => ac.0 as i64,
@@ -47,36 +73,33 @@ fn main() {
                     };
                     let js = serde_json::to_value(&m).ok();
                     let shown = js.as_ref().and_then(|v| v["altitude"].as_i64()).unwrap_or(-3);
-                    tr.emit(json!({"e": name, "x": x, "out": "ok", "alt": alt, "shown": shown}))
+                    json!({"e": name, "x": x, "out": "ok", "alt": alt, "shown": shown})
                 }
-                Ok(Err(_)) => tr.emit(json!({"e": name, "x": x, "out": "err", "alt": -1, "shown": -1})),
-                Err(_) => tr.emit(json!({"e": name, "x": x, "out": "panic", "alt": -1, "shown": -1})),
+                Ok(Err(_)) => json!({"e": name, "x": x, "out": "err", "alt": -1, "shown": -1}),
+                Err(_) => json!({"e": name, "x": x, "out": "panic", "alt": -1, "shown": -1}),
             }
         }
-        let payload = pack(&[(5, 5), (3, 0), (5, 0), (6, 0), (13, x)]);
-        let frame = seal(&payload, 0x400001);
-        match catch_unwind(|| Message::try_from(frame.as_slice())) {
-            Ok(Ok(m)) => {
-                let js = serde_json::to_value(&m).ok();
-                let s = js
-                    .as_ref()
-                    .and_then(|v| v["squawk"].as_str().map(|s| s.to_string()))
-                    .unwrap_or_default();
-                let raw = match &m.df {
-                    DF::SurveillanceIdentityReply { id, .. } => id.0 as i64,
-                    _ => -2,
-                };
-                tr.emit(json!({"e": "squawk", "x": x, "out": "ok", "chars": chars_json(&s), "y": raw}))
+        Call::Squawk(x) => {
+            let frame = frame_of(c).unwrap();
+            match catch_unwind(|| Message::try_from(frame.as_slice())) {
+                Ok(Ok(m)) => {
+                    let js = serde_json::to_value(&m).ok();
+                    let s = js
+                        .as_ref()
+                        .and_then(|v| v["squawk"].as_str().map(|s| s.to_string()))
+                        .unwrap_or_default();
+                    let raw = match &m.df {
+                        DF::SurveillanceIdentityReply { id, .. } => id.0 as i64,
+                        _ => -2,
+                    };
+                    json!({"e": "squawk", "x": x, "out": "ok", "chars": chars_json(&s), "y": raw})
+                }
+                Ok(Err(_)) => json!({"e": "squawk", "x": x, "out": "err", "chars": [], "y": -1}),
+                Err(_) => json!({"e": "squawk", "x": x, "out": "panic", "chars": [], "y": -1}),
             }
-            Ok(Err(_)) => tr.emit(json!({"e": "squawk", "x": x, "out": "err", "chars": [], "y": -1})),
-            Err(_) => tr.emit(json!({"e": "squawk", "x": x, "out": "panic", "chars": [], "y": -1})),
         }
-    }
-    // 12-bit altitude of the airborne position message (DF17, TC 11 barometric; TC 20 GNSS)
-    for x in 0u64..4096 {
-        for (tc, name) in [(11u64, "ac12"), (20u64, "ac12_gnss")] {
-            let payload = pack(&[(5, 17), (3, 5), (24, 0x400002), (5, tc), (2, 0), (1, 0), (12, x), (1, 0), (1, 0), (17, 1000), (17, 2000)]);
-            let frame = seal(&payload, 0);
+        Call::Ac12(x, _, name) => {
+            let frame = frame_of(c).unwrap();
             match catch_unwind(|| Message::try_from(frame.as_slice())) {
                 Ok(Ok(m)) => {
                     let alt = match &m.df {
@@ -91,12 +114,74 @@ fn main() {
                         .as_ref()
                         .map(|v| if v["altitude"].is_null() { -1 } else { v["altitude"].as_i64().unwrap_or(-3) })
                         .unwrap_or(-3);
-                    tr.emit(json!({"e": name, "x": x, "out": "ok", "alt": alt, "shown": shown}))
+                    json!({"e": name, "x": x, "out": "ok", "alt": alt, "shown": shown})
                 }
-                Ok(Err(_)) => tr.emit(json!({"e": name, "x": x, "out": "err", "alt": -1, "shown": -1})),
-                Err(_) => tr.emit(json!({"e": name, "x": x, "out": "panic", "alt": -1, "shown": -1})),
+                Ok(Err(_)) => json!({"e": name, "x": x, "out": "err", "alt": -1, "shown": -1}),
+                Err(_) => json!({"e": name, "x": x, "out": "panic", "alt": -1, "shown": -1}),
             }
         }
+    }
+}
+
+/// The unrelated call made before every 7th call (result ignored).
+fn unrelated(c: &Call) {
+    let other = match *c {
+        Call::Id13(x) => Call::Id13(((x as u16).reverse_bits() >> 3) as u32),
+        Call::Gray(g) => Call::Gray((g as u16).reverse_bits() as u32),
+        Call::Ac13(x, df, name) => Call::Ac13(x ^ 0x0AAA, if df == 4 { 20 } else { 4 }, name),
+        Call::Squawk(x) => Call::Ac13(x ^ 0x0555, 4, "ac13"),
+        Call::Ac12(x, tc, name) => Call::Ac12(x ^ 0x0555, tc, name),
+    };
+    let _ = exec(&other);
+}
+
+fn main() {
+    quiet_panics();
+    let args: Vec<String> = std::env::args().skip(1).collect();
+    let mut tr = Trace::create(&args[0]);
+    let mut calls: Vec<Call> = Vec::new();
+    // identity permutation, all 2^13 arguments
+    for x in 0u32..8192 {
+        calls.push(Call::Id13(x));
+    }
+    // Gillham converter, all 2^16 arguments
+    for g in 0u32..65536 {
+        calls.push(Call::Gray(g));
+    }
+    // 13-bit AC field through DF4, DF20 and DF0 frames; squawk through DF5
+    for x in 0u64..8192 {
+        for (df, name) in [(4u64, "ac13"), (20u64, "ac13_df20"), (0u64, "ac13_df0")] {
+            calls.push(Call::Ac13(x, df, name));
+        }
+        calls.push(Call::Squawk(x));
+    }
+    // 12-bit altitude of the airborne position message (DF17, TC 11 barometric; TC 20 GNSS)
+    for x in 0u64..4096 {
+        for (tc, name) in [(11u64, "ac12"), (20u64, "ac12_gnss")] {
+            calls.push(Call::Ac12(x, tc, name));
+        }
+    }
+    // first pass: ascending, with interleaved calls whose results are ignored
+    let mut events: Vec<Value> = Vec::with_capacity(calls.len());
+    for (idx, c) in calls.iter().enumerate() {
+        if idx % 3 == 2 {
+            if let Some(frame) = frame_of(c) {
+                let _ = catch_unwind(|| Message::try_from(&frame[..frame.len() / 2]).is_ok());
+            }
+        }
+        if idx % 7 == 6 {
+            unrelated(c);
+        }
+        events.push(exec(c));
+    }
+    // second pass: descending, plain
+    let mut again = vec![false; calls.len()];
+    for i in (0..calls.len()).rev() {
+        again[i] = exec(&calls[i]) == events[i];
+    }
+    for (i, mut ev) in events.into_iter().enumerate() {
+        ev["again_same"] = Value::Bool(again[i]);
+        tr.emit(ev);
     }
     tr.flush();
     println!("{}", tr.n);
